@@ -162,7 +162,7 @@ def trace_validate(chk, cases, results, work, limit, rnd):
     pick = canon + rest[:max(0, limit - len(canon))] if limit else canon + rest
     path = '%s/refine_trace.ndjson' % work
     vf.write_ndjson(path, pick)
-    r = vf.tlc('Refine_Trace', 'Refine_Trace.cfg', workers=10, timeout=2400, env={'REFINE_TRACE': path})
+    r = vf.tlc('Refine_Trace', 'Refine_Trace.cfg', workers=6, timeout=2400, env={'REFINE_TRACE': path})
     vf.tlc_ok(r, 'Refine trace validation')
     if r.violation:
         raise vf.ToolError('Refine_Trace: invariant %s violated (the two formulations of the predicate disagree)\n%s' % (r.violation, r.out[-2000:]))
@@ -226,19 +226,25 @@ def main(tier):
     hook = all('note' not in r.get('info', {}) for r in pres.values()) and len(pres) > 0
     nrec = sum(r.get('info', {}).get('records', 0) for r in pres.values())
     ntv = ncanon = rejected = 0
+    from concurrent.futures import ThreadPoolExecutor
+    pool = ThreadPoolExecutor(max_workers=1)
+    fut = None
     if not hook:
         vf.log('TOOL-NOTE: hook missing - manifold::verif::GetPartition is not in the library built from %s; the %d partition '
                'cases were skipped (apply mutants/C19/HOOK_subdivision.patch)' % (vf.REPO, len(pcases)))
         chk.assumptions.append('PARTITION CASES SKIPPED: the library was built without the verif-hook in src/subdivision.cpp')
     else:
         vf.log('[C19] %d partitions (cached + re-indexed) of %d tuples pre-screened by the driver (%.0fs)' % (nrec, len(pres), time.time() - chk.t0))
-        ntv, ncanon, rejected, rt = trace_validate(chk, pcases, pres, work, 15000 if thorough else 520, rnd)
-        states += rt.distinct; transitions += rt.generated
-        vf.log('[C19] %d implementation partitions validated by TLC against Refine!ValidPartition, %d rejected (%.0fs)' % (ntv, rejected, time.time() - chk.t0))
+        # TLC validates the recorded partitions while the programs are replayed
+        fut = pool.submit(trace_validate, chk, pcases, pres, work, 30000 if thorough else 420, rnd)
 
     # ---------------- B/C: programs ------------------------------------------------------
-    gres = run(chk, gcases, [], 'prog', timeout=3000 if thorough else 900)
+    gres = run(chk, gcases, [], 'prog', jobs=12 if fut is None else 10, timeout=3000 if thorough else 900)
     vf.log('[C19] %d lattice programs replayed (%.0fs)' % (len(gres), time.time() - chk.t0))
+    if fut is not None:
+        ntv, ncanon, rejected, rt = fut.result()
+        states += rt.distinct; transitions += rt.generated
+        vf.log('[C19] %d implementation partitions validated by TLC against Refine!ValidPartition, %d rejected (%.0fs)' % (ntv, rejected, time.time() - chk.t0))
     fam = {}
     for i, r in gres.items():
         c = json.loads(gcases[i])
@@ -279,7 +285,7 @@ def main(tier):
                 'tangents, each followed by Simplify/SetTolerance(t) for t in {0,1e-13,1e-9,1e-6,0.01,0.2}; the same on the un-refined Boolean '
                 'results; 5 smoothings (SmoothOut x3, CalculateNormals+SmoothByNormals, Smooth(mesh, sharpened edges)) x %d refinements then '
                 'Refine(2). non-trivial = pattern with more than one triangle / refinement that added triangles or a simplification that ran'
-                % ((10, 6, 'all 2^nc', 'a seeded sample of the others (15000 records in all)', 'all %d lattice solids (7 boxes, pairs x Add/Intersect/Subtract)' % nsolids, 6)
+                % ((12, 7, 'all 2^nc', 'a seeded sample of the others (30000 records in all)', 'all %d lattice solids (7 boxes, pairs x Add/Intersect/Subtract)' % nsolids, 6)
                    if thorough else
                    (8, 4, '4', 'a seeded sample of the others', '%d lattice solids (7 boxes; pairs x Add/Intersect/Subtract: overlap, '
                     'containment, face-patch contact, empty intersection)' % nsolids, 4)),
